@@ -1,5 +1,5 @@
 import Props.Defs
-namespace Coma.Proofs
+namespace Coma.Proofs.Scan
 open Coma Coma.Spec
 
 theorem sumInts_append (a b : List Int) : sumInts (a ++ b) = sumInts a + sumInts b := by
@@ -311,4 +311,4 @@ theorem scan_all (ms bst : Int) (scores : List Int) (hb : 0 ≤ bst) :
   obtain ⟨g, h1, h2, _⟩ := f1 r hr
   exact ⟨g, h1, h2⟩
 
-end Coma.Proofs
+end Coma.Proofs.Scan
